@@ -1,3 +1,7 @@
 import LicenseExpr.Props.C18
 #print axioms LE.C18_single_word_matches_partial
 #print axioms LE.C18_simple_tokens_partial
+#print axioms LE.C18_tokens
+#print axioms LE.C18_agree
+#print axioms LE.asciiCls_ok
+#print axioms LE.noAdj_of_B
